@@ -94,6 +94,8 @@ def run_unit_once(unit_name, canary=None, extra=(), suffix='', timeout=600, adde
     res['line_origins'] = built['line_origins']
     res['serves'] = built['unit'].get('serves', [])
     cmd = verus_cmd(path, extra)
+    if canary is None and '--rlimit' not in cmd:
+        cmd += ['--rlimit', '20']      # head-room: the heaviest function (holder list selection) needs ~8 of the default 10
     if canary is not None:
         # a canary variant only has to show that its one `assert(false)` per function fails: no extra error search
         cmd[cmd.index('--multiple-errors') + 1] = '0'
